@@ -3,6 +3,9 @@
 package vgirpc
 
 import (
+	"bytes"
+	"context"
+	"errors"
 	"fmt"
 	"io"
 	"log/slog"
@@ -10,6 +13,7 @@ import (
 	"testing"
 
 	"github.com/apache/arrow-go/v18/arrow"
+	"github.com/apache/arrow-go/v18/arrow/ipc"
 
 	"github.com/Query-farm/vgi-rpc-go/vgirpc/internal/verif/venum"
 )
@@ -229,7 +233,7 @@ func vfC06Ref(producer bool, castVariant bool, inputs []vfC06Input, turns []vfC0
 var vfC06I32Schema = arrow.NewSchema([]arrow.Field{{Name: "x", Type: arrow.PrimitiveTypes.Int32}}, nil)
 var vfC06StrSchema = arrow.NewSchema([]arrow.Field{{Name: "x", Type: arrow.BinaryTypes.String}}, nil)
 
-func vfC06InputBytes(producer bool, schemaVar int, inputs []vfC06Input) []byte {
+func vfC06InputBatches(producer bool, schemaVar int, inputs []vfC06Input) (*arrow.Schema, []arrow.RecordBatch) {
 	schema := vfEmptySchema
 	if !producer {
 		schema = []*arrow.Schema{vfInSchema, vfC06I32Schema, vfC06StrSchema}[schemaVar]
@@ -249,7 +253,189 @@ func vfC06InputBytes(producer bool, schemaVar int, inputs []vfC06Input) []byte {
 			bs = append(bs, vfBatchJSON(schema, fmt.Sprintf(`[{"x":%d}]`, in.x)))
 		}
 	}
+	return schema, bs
+}
+
+func vfC06InputBytes(producer bool, schemaVar int, inputs []vfC06Input) []byte {
+	schema, bs := vfC06InputBatches(producer, schemaVar, inputs)
 	return vfStreamBytes(schema, bs...)
+}
+
+var vfC06EOS = []byte{0xff, 0xff, 0xff, 0xff, 0, 0, 0, 0}
+
+// vfC06InputChunks frames the same input stream as separately deliverable
+// pieces: the schema message, one message per batch, the end-of-stream marker.
+func vfC06InputChunks(producer bool, schemaVar int, inputs []vfC06Input) (schemaB []byte, batchB [][]byte, eosB []byte) {
+	schema, bs := vfC06InputBatches(producer, schemaVar, inputs)
+	only := vfStreamBytes(schema)
+	if len(only) < 8 || !bytes.Equal(only[len(only)-8:], vfC06EOS) {
+		panic("vfC06InputChunks: unexpected end-of-stream framing")
+	}
+	schemaB = append([]byte(nil), only[:len(only)-8]...)
+	var buf bytes.Buffer
+	w := ipc.NewWriter(&buf, ipc.WithSchema(schema))
+	prev := 0
+	for i, b := range bs {
+		if err := w.Write(b); err != nil {
+			panic(err)
+		}
+		chunk := append([]byte(nil), buf.Bytes()[prev:]...)
+		prev = buf.Len()
+		if i == 0 {
+			if !bytes.HasPrefix(chunk, schemaB) {
+				panic("vfC06InputChunks: first chunk does not start with the schema message")
+			}
+			chunk = chunk[len(schemaB):]
+		}
+		batchB = append(batchB, chunk)
+	}
+	if err := w.Close(); err != nil {
+		panic(err)
+	}
+	eosB = vfC06EOS
+	if !bytes.HasSuffix(buf.Bytes(), vfC06EOS) {
+		panic("vfC06InputChunks: stream does not end with the end-of-stream marker")
+	}
+	return schemaB, batchB, eosB
+}
+
+// vfC06Scan reads what the server has written so far: how many complete IPC
+// streams, and inside stream dsIdx (complete or not) how many turn replies
+// (data or exception batches) there are.
+func vfC06Scan(out []byte, dsIdx int) (nComplete, replies int, sawErr, dsComplete bool) {
+	defer func() { _ = recover() }()
+	r := bytes.NewReader(out)
+	idx := 0
+	for r.Len() > 0 {
+		rd, err := ipc.NewReader(r)
+		if err != nil {
+			return
+		}
+		for rd.Next() {
+			if idx == dsIdx {
+				switch vfDescribeBatch(rd.RecordBatch(), false).Kind {
+				case "data":
+					replies++
+				case "error":
+					replies++
+					sawErr = true
+				}
+			}
+		}
+		rerr := rd.Err()
+		rd.Release()
+		pos := len(out) - r.Len()
+		if (rerr != nil && rerr != io.EOF) || pos < 8 || !bytes.Equal(out[pos-8:pos], vfC06EOS) {
+			return
+		}
+		nComplete++
+		if idx == dsIdx {
+			dsComplete = true
+		}
+		idx++
+	}
+	return
+}
+
+// vfC06Client is a lockstep pipe client as a state machine: it never writes
+// ahead. It sends the request (eager: together with its input-stream schema),
+// reads the header stream if the method has one, then sends ONE input batch at a
+// time and waits for that turn's reply (data batch, exception batch or end of
+// stream) before the next; after the last reply / an exception / a cancel it
+// closes its input stream and waits for the end of the output stream.
+type vfC06Client struct {
+	eager, hdr         bool
+	req                []byte
+	schemaB, eosB      []byte
+	batchB             [][]byte
+	isCancel           []bool
+	stage, sent        int
+	schemaSent, closed bool
+	cancelled, done    bool
+	waiting            string
+}
+
+func (c *vfC06Client) next(out []byte) []byte {
+	if c.stage == 0 {
+		c.stage = 1
+		b := append([]byte(nil), c.req...)
+		if c.eager {
+			b = append(b, c.schemaB...)
+			c.schemaSent = true
+		}
+		return b
+	}
+	if c.done {
+		return nil
+	}
+	dsIdx := 0
+	if c.hdr {
+		dsIdx = 1
+	}
+	nComplete, replies, sawErr, dsComplete := vfC06Scan(out, dsIdx)
+	if c.hdr && nComplete < 1 {
+		c.waiting = "waiting-for-header"
+		return nil
+	}
+	withSchema := func(b []byte) []byte {
+		if c.schemaSent {
+			return b
+		}
+		c.schemaSent = true
+		return append(append([]byte(nil), c.schemaB...), b...)
+	}
+	if c.closed {
+		if dsComplete {
+			c.done = true
+		} else {
+			c.waiting = "waiting-for-end-of-stream"
+		}
+		return nil
+	}
+	if !dsComplete && !sawErr && !c.cancelled && c.sent > replies {
+		c.waiting = "waiting-for-turn-reply"
+		return nil
+	}
+	if dsComplete || sawErr || c.cancelled || c.sent == len(c.batchB) {
+		c.closed = true
+		return withSchema(c.eosB)
+	}
+	b := c.batchB[c.sent]
+	c.cancelled = c.isCancel[c.sent]
+	c.sent++
+	return withSchema(b)
+}
+
+// vfC06Reactive is the server's view of that client: an io.Reader that, when it
+// has nothing buffered, lets the client look at everything the server has
+// written so far and decide what to send next. A client that cannot proceed
+// while the server is asking for input is a deadlock — detected synchronously,
+// no goroutines, no timers.
+type vfC06Reactive struct {
+	out      bytes.Buffer
+	pending  []byte
+	client   *vfC06Client
+	deadlock string
+}
+
+var errVfC06Deadlock = errors.New("verif: lockstep client and server wait for each other")
+
+func (r *vfC06Reactive) Read(p []byte) (int, error) {
+	if len(r.pending) == 0 {
+		r.pending = r.client.next(r.out.Bytes())
+		if len(r.pending) == 0 {
+			if r.client.done {
+				return 0, io.EOF
+			}
+			if r.deadlock == "" {
+				r.deadlock = r.client.waiting
+			}
+			return 0, errVfC06Deadlock
+		}
+	}
+	n := copy(p, r.pending)
+	r.pending = r.pending[n:]
+	return n, nil
 }
 
 func TestVerif_C06(t *testing.T) {
@@ -262,22 +448,34 @@ func TestVerif_C06(t *testing.T) {
 	turnAlpha := vfC06Turns(venum.Thorough())
 	maxInputs := venum.QT(4, 5)
 
+	// client behaviour: "prewritten" writes request + whole input stream before
+	// reading (one byte string); the two lockstep clients never write ahead —
+	// "lockstep-lazy" opens its input stream only after it has read the header,
+	// "lockstep-eager" sends the input schema together with the request.
+	clientModes := []string{"prewritten", "lockstep-lazy", "lockstep-eager"}
 	type config struct {
 		producer  bool
 		hdr       bool
 		schemaVar int // exchange only: 0 exact, 1 int32, 2 utf8
+		client    string
 	}
 	var configs []config
-	for _, h := range []bool{false, true} {
-		configs = append(configs, config{true, h, 0})
-		for sv := 0; sv < 3; sv++ {
-			configs = append(configs, config{false, h, sv})
+	for _, cm := range clientModes {
+		for _, h := range []bool{false, true} {
+			configs = append(configs, config{true, h, 0, cm})
+			for sv := 0; sv < 3; sv++ {
+				configs = append(configs, config{false, h, sv, cm})
+			}
 		}
 	}
 
 	venum.Explore(t, venum.Cfg{Name: "lockstep-scripts", Shardable: true}, func(x *venum.X) {
-		cf := configs[x.Choose(len(configs), "config(kind,header,input-schema)")]
-		n := x.Choose(maxInputs+1, "inputs")
+		cf := configs[x.Choose(len(configs), "config(client,kind,header,input-schema)")]
+		maxN := maxInputs
+		if cf.client != "prewritten" {
+			maxN = maxInputs - 1 // the lockstep clients are explored one input shallower
+		}
+		n := x.Choose(maxN+1, "inputs")
 		var inputs []vfC06Input
 		var turns []vfC06TurnKind
 		alive := true
@@ -313,7 +511,7 @@ func TestVerif_C06(t *testing.T) {
 		for _, in := range inputs {
 			inn = append(inn, in.kind)
 		}
-		x.Note("%s header=%v schemaVar=%d inputs=%v turns=%v", kind, cf.hdr, cf.schemaVar, inn, tn)
+		x.Note("%s client=%s header=%v schemaVar=%d inputs=%v turns=%v", kind, cf.client, cf.hdr, cf.schemaVar, inn, tn)
 
 		// the real server
 		s := NewServer()
@@ -345,8 +543,32 @@ func TestVerif_C06(t *testing.T) {
 			Exchange(s, "m", vfOutSchema, vfInSchema, init)
 		}
 		vfResetEvents()
-		wire := append(vfXReq("m", 1), vfC06InputBytes(cf.producer, cf.schemaVar, inputs)...)
-		out, _, pan := vfServePipe(s, wire)
+		var out []byte
+		var pan any
+		deadlock := ""
+		if cf.client == "prewritten" {
+			wire := append(vfXReq("m", 1), vfC06InputBytes(cf.producer, cf.schemaVar, inputs)...)
+			out, _, pan = vfServePipe(s, wire)
+		} else {
+			cl := &vfC06Client{eager: cf.client == "lockstep-eager", hdr: cf.hdr, req: vfXReq("m", 1)}
+			cl.schemaB, cl.batchB, cl.eosB = vfC06InputChunks(cf.producer, cf.schemaVar, inputs)
+			for _, in := range inputs {
+				cl.isCancel = append(cl.isCancel, in.kind == "cancel")
+			}
+			rr := &vfC06Reactive{client: cl}
+			func() {
+				defer func() {
+					if rv := recover(); rv != nil {
+						pan = rv
+					}
+				}()
+				s.ServeWithContext(context.Background(), rr, &rr.out)
+			}()
+			out, deadlock = rr.out.Bytes(), rr.deadlock
+			if deadlock == "" && !cl.done {
+				deadlock = "server-stopped-reading:client-" + fmt.Sprintf("stage%d-sent%d-closed=%v", cl.stage, cl.sent, cl.closed)
+			}
+		}
 		var evs []string
 		for _, e := range vfEvents {
 			switch e.What {
@@ -360,6 +582,15 @@ func TestVerif_C06(t *testing.T) {
 
 		alts, evAlts, endStep, dropped := vfC06Ref(cf.producer, cf.schemaVar != 0, inputs, turns)
 		base := "C06:" + kind + ":"
+		if deadlock != "" {
+			what := deadlock
+			if strings.HasPrefix(what, "server-stopped-reading") {
+				what = "server-stopped-reading"
+			}
+			x.Failf(base+"client="+cf.client+":deadlock:"+what, "lockstep client and server stopped making progress: client is %s; server had written %d bytes", deadlock, len(out))
+			x.Outcome("deadlock:%s", deadlock)
+			return
+		}
 		if pan != nil {
 			x.Failf(base+endStep+":serve-loop-panic", "serve loop panicked: %v", pan)
 			x.Outcome("panic")
@@ -461,6 +692,6 @@ func TestVerif_C06(t *testing.T) {
 			}
 			x.Failf(sig, "user code invoked: %s; acceptable: %s", gotEv, strings.Join(evAlts, " | "))
 		}
-		x.Outcome("%s|hdr=%v|%s|%s", kind, cf.hdr, strings.Join(got, " "), gotEv)
+		x.Outcome("%s|%s|hdr=%v|%s|%s", kind, cf.client, cf.hdr, strings.Join(got, " "), gotEv)
 	})
 }
